@@ -15,6 +15,17 @@
 //	                            SettingsBeforeFormat=b, SettingsAfterFormat=a, len(Settings)=n
 //	I  <e>    <item>;<item>;... SelectIntersectExceptQuery, operators all EXCEPT (e=1) or INTERSECT (e=0)
 //
+//	the union nested in an enclosing statement, which passes a non-trivial unionTail (the type is
+//	unexported, so it is reached through the statements that build it); the reported numbers
+//	and text are those of the nested SelectWithUnionQuery subtree (first line with that label
+//	below the root, up to the next line that is not deeper; de-indented):
+//	N  <w><b><a><n>  <items>    &ast.InsertQuery{Table: "t", With: w identifiers, Select: union}
+//	                            (unionTail{noFormat: true}; w > 0: the inherited-WITH union printer)
+//	X  <b><a><n>     <items>    &ast.ExplainQuery{ExplainType: AST, Statement: union}
+//	                            (noSettings / noFormatOf / noSettingsOf from the first SelectQuery)
+//	C  <f><b><a><n>  <items>    &ast.CreateQuery{View: "v", AsSelect: union, Format: f ? "Null" : ""}
+//	                            (f = 1: unionTail{noFormat: true} via explainAsSelectWithoutFormat)
+//
 //	<item> = q<sq>   a *ast.SelectQuery
 //	       | u<sq>   a *ast.SelectWithUnionQuery with that single select (a parenthesised select)
 //	<sq>   = 25 decimal digits, one per field, in this order:
@@ -165,28 +176,60 @@ func buildItems(s string) ([]ast.Statement, error) {
 	return out, nil
 }
 
+func buildUnion(arg, items string) (*ast.SelectWithUnionQuery, error) {
+	if len(arg) != 3 {
+		return nil, fmt.Errorf("union arg must be 3 digits")
+	}
+	sel, err := buildItems(items)
+	if err != nil {
+		return nil, err
+	}
+	u := &ast.SelectWithUnionQuery{Selects: sel}
+	for i := 1; i < len(sel); i++ {
+		u.UnionModes = append(u.UnionModes, "UNION ALL")
+	}
+	u.SettingsBeforeFormat = arg[0] != '0'
+	u.SettingsAfterFormat = arg[1] != '0'
+	for i := 0; i < int(arg[2]-'0'); i++ {
+		u.Settings = append(u.Settings, &ast.SettingExpr{Name: fmt.Sprintf("us%d", i+1), Value: id("v")})
+	}
+	return u, nil
+}
+
 func buildCase(kind, arg, items string) (ast.Statement, error) {
 	switch kind {
 	case "S":
 		return build(items)
 	case "U":
-		if len(arg) != 3 {
-			return nil, fmt.Errorf("U arg must be 3 digits")
+		return buildUnion(arg, items)
+	case "N":
+		if len(arg) != 4 {
+			return nil, fmt.Errorf("N arg must be 4 digits")
 		}
-		sel, err := buildItems(items)
+		u, err := buildUnion(arg[1:], items)
 		if err != nil {
 			return nil, err
 		}
-		u := &ast.SelectWithUnionQuery{Selects: sel}
-		for i := 1; i < len(sel); i++ {
-			u.UnionModes = append(u.UnionModes, "UNION ALL")
+		return &ast.InsertQuery{Table: "t", With: ids("iw", int(arg[0]-'0')), Select: u}, nil
+	case "X":
+		u, err := buildUnion(arg, items)
+		if err != nil {
+			return nil, err
 		}
-		u.SettingsBeforeFormat = arg[0] != '0'
-		u.SettingsAfterFormat = arg[1] != '0'
-		for i := 0; i < int(arg[2]-'0'); i++ {
-			u.Settings = append(u.Settings, &ast.SettingExpr{Name: fmt.Sprintf("us%d", i+1), Value: id("v")})
+		return &ast.ExplainQuery{ExplainType: ast.ExplainAST, ExplicitType: true, Statement: u}, nil
+	case "C":
+		if len(arg) != 4 {
+			return nil, fmt.Errorf("C arg must be 4 digits")
 		}
-		return u, nil
+		u, err := buildUnion(arg[1:], items)
+		if err != nil {
+			return nil, err
+		}
+		c := &ast.CreateQuery{View: "v", AsSelect: u}
+		if arg[0] != '0' {
+			c.Format = "Null"
+		}
+		return c, nil
 	case "I":
 		sel, err := buildItems(items)
 		if err != nil {
@@ -250,6 +293,31 @@ func main() {
 		lines := strings.Split(text, "\n")
 		if n := len(lines); n > 0 && lines[n-1] == "" {
 			lines = lines[:n-1]
+		}
+		if f[0] == "N" || f[0] == "X" || f[0] == "C" {
+			// the nested SelectWithUnionQuery subtree, de-indented
+			start, ind := -1, 0
+			for i := 1; i < len(lines); i++ {
+				t := strings.TrimLeft(lines[i], " ")
+				if strings.HasPrefix(t, "SelectWithUnionQuery") {
+					start, ind = i, len(lines[i])-len(t)
+					break
+				}
+			}
+			if start < 0 {
+				fmt.Fprintln(out, "NOSUBTREE")
+				continue
+			}
+			end := start + 1
+			for end < len(lines) && len(lines[end])-len(strings.TrimLeft(lines[end], " ")) > ind {
+				end++
+			}
+			sub := make([]string, 0, end-start)
+			for _, l := range lines[start:end] {
+				sub = append(sub, l[ind:])
+			}
+			lines = sub
+			text = strings.Join(sub, "\n") + "\n"
 		}
 		header, direct := 0, 0
 		if len(lines) > 0 {
